@@ -175,6 +175,9 @@ def gen_profiles(rng, tier):
         spec = {"kind": "balanced", "scale": 12000.0, "seed": rng.randrange(1, 10 ** 6)}
         h0 = CUM[mth] + 24 * day
         ps.append({"months": [24, 13, 12, 36, 25][k], "loads": spec, "spikes": [[h0 + 5, 61000.0 + 1000 * k], [h0 + 16, -64000.0 - 1000 * k]]})
+    # a year of loads given as whole numbers of watts (Python ints, not multiples of 1000)
+    for k in range(1 if tier == "quick" else 3):
+        ps.append({"months": [12, 24, 13][k], "loads": {"kind": ["balanced", "heating", "spiky"][k], "scale": [8800.0, 5300.0, 12700.0][k], "seed": rng.randrange(1, 10 ** 6), "as_int": True}, "spikes": []})
     # directed: a cold snap around the clock over 31 December / 1 January — January's extraction peak on the first day of the horizon with a
     # duration above 26 h (the pulse would start before hour 0: its start is clamped and the pulse shifted)
     spec = {"kind": "balanced", "scale": 8000.0, "seed": rng.randrange(1, 10 ** 6)}
@@ -469,7 +472,26 @@ def csv_time_axis(chk):
     ru = cfg(months=31, loads={"kind": "balanced", "scale": 20000.0, "seed": 3})            # a manager that was set up for 24 months first
     ru["_changed_after_design"] = {"section": "simulation", "values": {"num_months": 24}, "design_found_first": True}
     idle = cfg(months=24, loads={"kind": "balanced", "scale": 20000.0, "seed": 3, "first_loaded_month": 4})      # building taken into use on 1 April
-    tcfgs += [ru, idle]
+    hh = cfg(months=18, loads={"kind": "balanced", "scale": 20000.0, "seed": 3})                # hourly, then hybrid again, then the files
+    hh["_hourly_then_hybrid_before_write"] = True
+    tcfgs += [ru, idle, hh]
+    # through the command-line worker, with the optional (documented as unused) start_month in the simulation section
+    sm = cfg(months=18, loads={"kind": "balanced", "scale": 20000.0, "seed": 3})
+    sm["simulation"]["start_month"] = "MARCH"
+    cr = run_impl("e2e.py", {"mode": "cli_sequence", "sequences": [[sm]]}, timeout=1500)
+    if isinstance(cr, dict) and "_error" in cr:
+        chk.broken.append({"name": "command-line run failed in the harness", "detail": cr["_error"][-300:]})
+    else:
+        o = cr[0][0]
+        chk.cov["evaluations"] += 1
+        tc = o.get("time_column")
+        if tc is None:
+            chk.violation("time-csv", sm, {"outcome": {k: v for k, v in o.items() if k != "borefield"}}, "a valid input file (simulation.start_month given) produces its time table")
+        else:
+            missing = [m for m in range(1, 19) if float(closed_lmh(m)) not in tc]
+            if max(tc) != closed_lmh(18) or missing:
+                chk.violation("time-csv", sm, {"last_time_h": max(tc), "month_ends_without_a_row": missing[:6]},
+                              f"the time column covers the 18-month horizon: ends at {closed_lmh(18)} h with a row at every calendar month end")
     for r in e2e_runs(tcfgs):
         if not r.get("ok"):
             chk.broken.append({"name": "end-to-end run failed", "detail": json.dumps({k: r.get(k) for k in ("exc", "msg")})})
@@ -536,6 +558,54 @@ def ghe_level_energy(chk):
                 if len(chk.violations) < 4:
                     chk.violation("ghe-hybrid", c, {"month": m, "hybrid_integral_kWh": e, "net_hourly_kWh": net},
                                   "the month's hybrid integral equals its net hourly load (rejection minus extraction) — on the loads the GHE object carries after the run")
+                break
+            pos = b
+    return n
+
+
+def csv_energy(chk):
+    """the other observation point of C06: the Q column of TimeDependentValues.csv as the real row builder writes it for a simulated GHE —
+    also when the hybrid sequence steps back in time (a 48-hour heat wave across 31 July / 1 August: August's pulse starts before July
+    ends, which the code warns about)"""
+    wave = [[h, -41000.0 - 13.0 * (h % 24)] for h in range(CUM[7] - 24, CUM[7] + 24)]
+    cases = [{"nx": 1, "ny": 2, "months": 24, "H": 100.0, "heights": [60.0, 97.5, 135.0], "loads": {"kind": "balanced", "scale": 9000.0, "seed": 3}, "spikes": wave, "ops": ["simulate"], "csv_rows": True},
+             {"nx": 1, "ny": 2, "months": 13, "H": 100.0, "heights": [60.0, 97.5, 135.0], "loads": {"kind": "mixed_days", "scale": 9000.0, "seed": 5}, "spikes": [], "ops": ["simulate"], "csv_rows": True}]
+    from concurrent.futures import ThreadPoolExecutor
+    with ThreadPoolExecutor(max_workers=2) as ex:
+        rs = list(ex.map(lambda c: run_impl("ghe_drv.py", {"mode": "hybrid", "cases": [c]}, timeout=1500), cases))
+    n = 0
+    for c, rr in zip(cases, rs):
+        if isinstance(rr, dict) and "_error" in rr:
+            chk.broken.append({"name": "real GHE run failed in the harness (time table rows)", "detail": rr["_error"][-300:]})
+            continue
+        o = rr[0]
+        if not o.get("ok") or "csv_tq" not in o:
+            chk.broken.append({"name": "real GHE run failed (time table rows)", "detail": json.dumps({k: v for k, v in o.items() if k in ("exc", "msg")})[-300:]})
+            continue
+        months = c["months"]
+        hourly = o["hourly"]
+        rows = o["csv_tq"]
+        chk.cov["evaluations"] += 1
+        # rows come in pairs per breakpoint: the first of a pair carries the load of the segment that ENDS at that time
+        t = [0.0] + [x[0] for x in rows[0::2]]
+        qb = [0.0] + [x[1] for x in rows[0::2]]
+        ends = [0.0] + [float(closed_lmh(m)) for m in range(1, months + 1)]
+        pos = 0
+        for m in range(1, months + 1):
+            cand = [k for k in range(pos, len(t)) if t[k] == ends[m]]
+            if not cand:
+                if len(chk.violations) < 4:
+                    chk.violation("csv-energy", c, {"month": m, "month_end_h": ends[m]}, "TimeDependentValues.csv has a row at the end of every simulated month")
+                break
+            b = cand[-1]
+            e = sum(qb[k] * (t[k] - t[k - 1]) for k in range(pos + 1, b + 1)) / 1000.0
+            k12 = (m - 1) % 12
+            net = -sum(hourly[CUM[k12]:CUM[k12 + 1]]) / 1000.0
+            n += 1
+            if abs(e - net) > 1e-6 * max(1.0, abs(net)):
+                if len(chk.violations) < 4:
+                    chk.violation("csv-energy", c, {"month": m, "from_the_Q_column_kWh": e, "net_hourly_kWh": net, "first_rows": rows[:4]},
+                                  "the month's integral of the Q column of TimeDependentValues.csv (signed sum of load x time difference between month-end rows) equals its net hourly load")
                 break
             pos = b
     return n
@@ -651,6 +721,8 @@ def run_hybrid_check(chk, which, props_file, extra_models):
         design_level_loads(chk)
     if which == "C06" and len(chk.violations) < 4:
         nontrivial += ghe_level_energy(chk)
+    if which == "C06" and len(chk.violations) < 4:
+        nontrivial += csv_energy(chk)
     # listed findings are re-run on their exact input
     for kf in chk.open_findings("hybrid-profile"):
         r = run_impl("hybrid.py", {"profiles": [kf["input"]]})
